@@ -344,6 +344,47 @@ classes:
 			}
 		}
 	}
+	// rules ALL of whose code blocks lie below a recovery operator (the usual shape of labeled
+	// failures: //{..} binds weakest, so the rule's action sits in its guarded expression), on either
+	// side of it, nested twice, referenced from another rule and inlined by -optimize-grammar
+	{
+		lit := peg.Lit
+		blocks := []func() *peg.Expr{
+			func() *peg.Expr { return peg.Action(0, peg.Label("x", lit("a"))) }, func() *peg.Expr { return peg.Seq(lit("a"), peg.AndCode(0)) },
+			func() *peg.Expr { return peg.Seq(peg.NotCode(0), lit("a")) }, func() *peg.Expr { return peg.Seq(peg.StateCode(0), lit("a")) },
+		}
+		k := 0
+		for _, bl := range blocks {
+			for side := 0; side < 3; side++ {
+				idx++
+				if !c.Mine(idx) {
+					continue
+				}
+				var body *peg.Expr
+				switch side {
+				case 0:
+					body = peg.Recover(peg.Choice(bl(), peg.Throw("l")), lit("b"), "l")
+				case 1:
+					body = peg.Recover(peg.Choice(lit("c"), peg.Throw("l")), bl(), "l")
+				case 2:
+					body = peg.Recover(peg.Recover(peg.Choice(bl(), peg.Throw("m")), lit("b"), "l"), peg.Seq(lit("d"), bl()), "m")
+				}
+				for _, gen := range []core.Gen{{}, {Optimize: true}, {OptGrammar: true}, {Optimize: true, OptGrammar: true, BasicLatin: true}} {
+					for shape := 0; shape < 2; shape++ {
+						g := &peg.Grammar{Rules: []*peg.Rule{{Name: "A", Expr: body.Clone()}}}
+						if shape == 1 {
+							g = &peg.Grammar{Rules: []*peg.Rule{{Name: "S", Expr: peg.Seq(peg.Ref("A"), peg.Opt(peg.Ref("A")))}, {Name: "A", Expr: body.Clone()}}}
+						}
+						peg.Renumber(g, 1)
+						peg.AssignArgs(g)
+						k++
+						quota = len(batch) + 1
+						structural(g, gen, "blocks only below a recovery operator", k%3 == 1)
+					}
+				}
+			}
+		}
+	}
 	// cross family (cross.go): every construct next to every other under all 16 flag sets: one
 	// method per block with exactly the labels of its scope (structural check on every case), a
 	// systematic part really compiled, vetted and initialised
